@@ -1,10 +1,10 @@
 """Function bodies of /repo translated into Lean by rs2lean.py -> lean/VlsModel/Gen/Fn<Area>.lean.
 
 One namespace per source file.  Every target names the property whose model uses it and the theorem of
-lean/VlsModel/Props/<Cxx>Gen.lean that ties the hand-written model to the generated definition.
+lean/VlsModel/Props/<Cxx>Fn.lean that ties the hand-written model to the generated definition.
 
 Fail closed, per function: a target that is no longer inside the translator's subset is *not emitted* (a comment
-`-- NOT TRANSLATED` takes its place), so the `Props/<Cxx>Gen.lean` theorem that mentions it no longer builds and
+`-- NOT TRANSLATED` takes its place), so the `Props/<Cxx>Fn.lean` theorem that mentions it no longer builds and
 `bin/check Cxx` reports a broken obligation for exactly the properties that rest on it.  A target without a
 tying theorem in the Props file is a configuration error and raises (all properties)."""
 import os, re, hashlib
@@ -13,54 +13,54 @@ from rs2lean import Unit, RsError
 
 HERE = os.path.dirname(os.path.abspath(__file__))
 
-# (impl type or None, function, property, tying theorem in Props/<property>Gen.lean or None)
+# (impl type or None, function, property, tying theorem in Props/<property>Fn.lean or None)
 TARGETS = [
     dict(area="Velocity", rel="vls-core/src/util/velocity.rs", consts=[], externals={}, fns=[
-        ("VelocityControl", "spec_to_triple", "C12", "C12_gen_spec_to_triple"),
-        ("VelocityControl", "spec_matches", "C12", "C12_gen_spec_matches"),
-        ("VelocityControl", "update_spec", "C12", "C12_gen_update_spec"),
-        ("VelocityControl", "is_unlimited", "C12", "C12_gen_is_unlimited"),
-        ("VelocityControl", "velocity", "C12", "C12_gen_velocity"),
-        ("VelocityControl", "insert", "C12", "C12_gen_insert"),
+        ("VelocityControl", "spec_to_triple", "C12", "C12_fn_spec_to_triple"),
+        ("VelocityControl", "spec_matches", "C12", "C12_fn_spec_matches"),
+        ("VelocityControl", "update_spec", "C12", "C12_fn_update_spec"),
+        ("VelocityControl", "is_unlimited", "C12", "C12_fn_is_unlimited"),
+        ("VelocityControl", "velocity", "C12", "C12_fn_velocity"),
+        ("VelocityControl", "insert", "C12", "C12_fn_insert"),
     ]),
     dict(area="Simple", rel="vls-core/src/policy/simple_validator.rs", consts=["vls-core/src/policy/mod.rs"], externals={}, fns=[
-        ("SimpleValidator", "validate_delay", "C05", "C05_gen_validate_delay"),
-        ("SimpleValidator", "validate_expiry", "C05", "C05_gen_validate_expiry"),
-        ("SimpleValidator", "validate_fee", "C05", "C05_gen_validate_fee"),
-        ("SimpleValidator", "validate_beneficial_value", "C08", "C08_gen_validate_beneficial_value"),
-        ("SimpleValidator", "outside_epsilon_range", "C07", "C07_gen_outside_epsilon_range"),
+        ("SimpleValidator", "validate_delay", "C05", "C05_fn_validate_delay"),
+        ("SimpleValidator", "validate_expiry", "C05", "C05_fn_validate_expiry"),
+        ("SimpleValidator", "validate_fee", "C05", "C05_fn_validate_fee"),
+        ("SimpleValidator", "validate_beneficial_value", "C08", "C08_fn_validate_beneficial_value"),
+        ("SimpleValidator", "outside_epsilon_range", "C07", "C07_fn_outside_epsilon_range"),
     ]),
     dict(area="EnforceVal", rel="vls-core/src/policy/validator.rs", consts=[], externals={},
          structs=["vls-core/src/tx/tx.rs"], fns=[
-        ("EnforcementState", "minimum_to_holder_value", "C07", "C07_gen_minimum_to_holder_value"),
-        ("EnforcementState", "minimum_to_counterparty_value", "C07", "C07_gen_minimum_to_counterparty_value"),
+        ("EnforcementState", "minimum_to_holder_value", "C07", "C07_fn_minimum_to_holder_value"),
+        ("EnforcementState", "minimum_to_counterparty_value", "C07", "C07_fn_minimum_to_counterparty_value"),
         ("", "min_opt", "C06", None, "snippet"),
     ]),
     dict(area="Kvv", rel="vls-persist/src/kvv/memory.rs", consts=[], externals={}, fns=[
-        ("MemoryKVVStore", "put_with_version", "C16", "C16_gen_put_with_version"),
-        ("MemoryKVVStore", "get_version", "C16", "C16_gen_get_version"),
-        ("MemoryKVVStore", "put", "C16", "C16_gen_put"),
-        ("MemoryKVVStore", "get", "C16", "C16_gen_get"),
+        ("MemoryKVVStore", "put_with_version", "C16", "C16_fn_put_with_version"),
+        ("MemoryKVVStore", "get_version", "C16", "C16_fn_get_version"),
+        ("MemoryKVVStore", "put", "C16", "C16_fn_put"),
+        ("MemoryKVVStore", "get", "C16", "C16_fn_get"),
     ]),
     dict(area="TxUtil", rel="vls-core/src/util/transaction_utils.rs", consts=[], externals={}, fns=[
-        ("", "expected_commitment_tx_weight", "C05", "C05_gen_commitment_weight", "snippet"),
-        ("", "estimate_feerate_per_kw", "C04", "C04_gen_estimate_feerate", "snippet"),
+        ("", "expected_commitment_tx_weight", "C05", "C05_fn_commitment_weight", "snippet"),
+        ("", "estimate_feerate_per_kw", "C04", "C04_fn_estimate_feerate", "snippet"),
     ]),
     dict(area="Tx", rel="vls-core/src/tx/tx.rs", consts=[], externals={}, fns=[
-        ("CommitmentInfo2", "value_to_parties", "C05", "C05_gen_value_to_parties"),
-        ("CommitmentInfo2", "total_value", "C05", "C05_gen_total_value"),
+        ("CommitmentInfo2", "value_to_parties", "C05", "C05_fn_value_to_parties"),
+        ("CommitmentInfo2", "total_value", "C05", "C05_fn_total_value"),
     ]),
     dict(area="Enforce", rel="vls-core/src/policy/validator.rs", consts=[], externals={}, fns=[
-        ("EnforcementState", "set_next_holder_commit_num", "C03", "C03_gen_set_next_holder_commit_num"),
-        ("EnforcementState", "set_next_counterparty_commit_num", "C03", "C03_gen_set_next_counterparty_commit_num"),
-        ("EnforcementState", "get_previous_counterparty_point", "C03", "C03_gen_get_previous_counterparty_point"),
-        ("EnforcementState", "get_previous_counterparty_commit_info", "C03", "C03_gen_get_previous_counterparty_commit_info"),
-        ("EnforcementState", "set_next_counterparty_revoke_num", "C03", "C03_gen_set_next_counterparty_revoke_num"),
+        ("EnforcementState", "set_next_holder_commit_num", "C03", "C03_fn_set_next_holder_commit_num"),
+        ("EnforcementState", "set_next_counterparty_commit_num", "C03", "C03_fn_set_next_counterparty_commit_num"),
+        ("EnforcementState", "get_previous_counterparty_point", "C03", "C03_fn_get_previous_counterparty_point"),
+        ("EnforcementState", "get_previous_counterparty_commit_info", "C03", "C03_fn_get_previous_counterparty_commit_info"),
+        ("EnforcementState", "set_next_counterparty_revoke_num", "C03", "C03_fn_set_next_counterparty_revoke_num"),
     ]),
     dict(area="Monitor", rel="vls-core/src/monitor.rs", consts=[], externals={}, fns=[
-        ("State", "depth_of", "C15", "C15_gen_depth_of"),
-        ("State", "deep_enough_and_saw_node_forget", "C15", "C15_gen_deep_enough"),
-        ("State", "is_done", "C15", "C15_gen_is_done"),
+        ("State", "depth_of", "C15", "C15_fn_depth_of"),
+        ("State", "deep_enough_and_saw_node_forget", "C15", "C15_fn_deep_enough"),
+        ("State", "is_done", "C15", "C15_fn_is_done"),
     ]),
 ]
 
@@ -199,9 +199,9 @@ def extract(repo):
             qn = (impl + "::" if impl else "") + name
             ent = info.setdefault(prop, {"facts": {"fn_gen": {}}, "obligations": []})
             if thm is not None:
-                pf = os.path.join(HERE, "..", "lean", "VlsModel", "Props", prop + "Gen.lean")
+                pf = os.path.join(HERE, "..", "lean", "VlsModel", "Props", prop + "Fn.lean")
                 if not os.path.exists(pf) or not re.search(r"\btheorem\s+" + re.escape(thm) + r"\b", open(pf).read()):
-                    raise ExtractError("x_fn: target %s names theorem %s which is not in Props/%sGen.lean" % (qn, thm, prop))
+                    raise ExtractError("x_fn: target %s names theorem %s which is not in Props/%sFn.lean" % (qn, thm, prop))
             if f is None:
                 ent["facts"]["fn_gen"][qn] = {"file": tg["rel"], "translated": False, "why": u.failed.get((impl, name))}
                 ent["obligations"].append("Gen.Fn%s: %s is NOT TRANSLATED (outside the subset): %s breaks" % (tg["area"], qn, thm))
